@@ -227,24 +227,28 @@ PROPS = {
         trusted_base=['heap model of getattr/setattr/delattr', 'threading.local semantics'],
     ),
     'C11': dict(
-        level='other', contracts=[], frames=[],
+        level='other', contracts=['radix'], frames=[],
         technique='bounded model-based contract check: every edit history up to a depth bound (state-merged) compared with a freshly '
                   'built router on all probe paths, name/rule lookups and fired hooks',
         explanation='BOUNDED edit histories over seven rule universes (incl. literal children directly after a filtered wildcard); see coverage.bounded.',
-        level_text='Bounded contract check (never counted as proved): the radix tree rewrites nested lists in place (slice assignment), '
-                   'which the VC generator does not model.',
+        level_text='Bounded contract check (never counted as proved) for the statement. Proved: the four helpers that rewrite tree nodes in '
+                   'place (_make_node, _split, _try_merge, _mount) keep the abstract content of the tree (keys concatenate to the old key, '
+                   'every slot and child carried over, merge only without data/hooks and never across a wildcard, index string matches the '
+                   'children, one wildcard child kept last). The algorithms that walk the tree (get, _match, _set, remove) and the index '
+                   'dictionaries of RadiRouter are not under contract.',
         level_note='Depth bound and universes are stated in coverage.bounded.bound.',
     ),
     'C01': dict(
-        level='other', contracts=['C02', 'C01'], frames=[],
+        level='other', contracts=['C02', 'C01', 'radix'], frames=[],
         technique='bounded run-time contract check: RadiRouter.resolve / Ombott.__call__ against an independent rule-by-rule spec matcher '
                   'over enumerated rule lists and paths; proved side obligations on RadiRouter.resolve (result assembly)',
         explanation='BOUNDED: ordered rule lists (singletons of a 4641-rule universe, pairs, prefix-sharing families, random lists) x all short '
                     'paths over an 8-letter alphabet incl. CR, lookups interleaved with registration, a renamed-wildcard hook, one removal; see coverage.bounded. '
                     'Proved: resolve assembles its result from the lookup result as specified (and consults nothing else); make_params_dict returns a '
                     'fresh dict of exactly the named pairs; the filter handler closures return the converted capture or refuse.',
-        level_text='Bounded contract check of the real router (never counted as proved): the radix tree (RadiDict.get/_set/_split/remove) rewrites '
-                   'nested lists in place and consults compiled regular expressions; the VC generator does not model that.',
+        level_text='Bounded contract check of the real router (never counted as proved): the walk of the radix tree (RadiDict.get/_match/_set/'
+                   'remove) with backtracking and compiled regular expressions is not under contract. Proved parts: result assembly of resolve, '
+                   'make_params_dict, the filter handler closures, and the node surgery helpers (_make_node, _split, _try_merge, _mount).',
         level_note='Bounds are stated in coverage.bounded.bound. Two known findings (names of a second rule on a shared pattern; int filter digit limit).',
     ),
     'C06': dict(
